@@ -274,6 +274,7 @@ class Program:
         self.consts = {}
         self.impls = []
         self.traits = {}
+        raws = {}
         for c in CRATES:
             with open(os.path.join(factdir, c + ".json")) as fh:
                 raw = json.load(fh)
@@ -281,7 +282,16 @@ class Program:
             if len(raw["bodies"]) < BODY_FLOORS[c]:
                 raise FactsError("crate %s: %d bodies exported, floor %d" % (c, len(raw["bodies"]), BODY_FLOORS[c]))
             for b in raw["bodies"]:
-                self.bodies[b["path"]] = Body(b, c)
+                b["_crate"] = c
+                raws[b["path"]] = b
+        # functions absent from the reference tree are inlined into their callers (engine/inline.py)
+        from . import inline as _inline
+        self.inline_report = _inline.inline_new(raws, _inline.reference_paths())
+        self.info["inlined_new_functions"] = self.inline_report
+        for p, b in raws.items():
+            self.bodies[p] = Body(b, b["_crate"])
+        for c in CRATES:
+            raw = self.crates[c]
             for a in raw["adts"]:
                 self.adts[a["path"]] = a
             for k in raw["consts"]:
@@ -345,8 +355,12 @@ class Program:
         return [b for p, b in self.bodies.items() if p.endswith(suffix)]
 
     def closures_of(self, path):
-        pre = path + "::{closure#"
-        return [b for p, b in self.bodies.items() if p.startswith(pre)]
+        """closure bodies created in `path` - including those of new functions inlined into it"""
+        pres = [path + "::{closure#"]
+        b0 = self.bodies.get(path)
+        if b0 is not None:
+            pres += [q + "::{closure#" for q in b0.raw.get("inlined", [])]
+        return [b for p, b in self.bodies.items() if p.startswith(tuple(pres))]
 
     def adt(self, path):
         a = self.adts.get(path)
